@@ -187,6 +187,9 @@ func execute(p runPlan) (res runResult) {
 	for _, k := range unaryKeys {
 		chans = append(chans, cesium.Channel{Key: k, Name: fmt.Sprintf("u%d", k), DataType: telem.TimeStampT, IsIndex: true})
 	}
+	for _, k := range []key{kD0, kD1, kD2} {
+		chans = append(chans, cesium.Channel{Key: k, Name: fmt.Sprintf("d%d", k), DataType: telem.Int64T, Index: indexOf[k]})
+	}
 	for _, k := range append(append([]key{}, virtKeys...), kS0, kS1, kS2, kE) {
 		chans = append(chans, cesium.Channel{Key: k, Name: fmt.Sprintf("v%d", k), DataType: telem.Int64T, Virtual: true})
 	}
@@ -336,6 +339,15 @@ func execute(p runPlan) (res runResult) {
 						}
 						series = append(series, telem.NewSeries(vals))
 						if cur == authHigh {
+							rec.AuthKeys = append(rec.AuthKeys, k)
+						}
+					} else if _, isData := indexOf[k]; isData {
+						vals := make([]int64, wp.N)
+						for j := range vals {
+							vals[j] = regVal(l.plan.ID, seq, j)
+						}
+						series = append(series, telem.NewSeries(vals))
+						if owns[k] {
 							rec.AuthKeys = append(rec.AuthKeys, k)
 						}
 					} else {
